@@ -93,6 +93,8 @@ type caseIn struct {
 	CidV      int        `json:"cidv"`
 	Hash      string     `json:"hash"`
 	Flip      bool       `json:"flip"` // also run with sharding flipped and compare roots
+	// R: very long stream; the record is judged by the property predicates only (Conforms costs TLC O(n^2))
+	NoConf bool `json:"partial"`
 }
 
 func (c *caseIn) UnmarshalJSON(b []byte) error {
@@ -272,7 +274,7 @@ func runReplay(e *env, c *caseIn) (*record, error) {
 			o.Root = "?" + root.String()
 		}
 	}
-	return &record{ID: c.ID, Mode: "R", Class: c.Class, In: in, Out: o, Err: errStr}, nil
+	return &record{ID: c.ID, Mode: "R", Class: c.Class, In: in, Out: o, Err: errStr, Partial: c.NoConf}, nil
 }
 
 // ---------------------------------------------------------------------------
